@@ -52,7 +52,11 @@ VERIF_MAIN(H_ENTRY)
 
 static struct spki_table g_tab;
 static struct spki_record g_rec;
-static struct key_entry g_new; /* what lrtr_malloc hands out */
+static struct key_entry g_pool[4]; /* what lrtr_malloc hands out, in order */
+#define g_new g_pool[0]
+static struct spki_table g_dst; /* destination of a copy (not parked: it is private to the copying thread) */
+static int g_dlock;
+static unsigned int g_dacq;
 struct kcalls {
 	unsigned int search, insert, list_insert, hremove, frees, cb, mallocs;
 	bool bad;
@@ -82,6 +86,13 @@ static tommy_hashlin g_real_ht, g_junk_ht;
 static tommy_list g_real_list;
 static void lock_enter(pthread_rwlock_t *l, int mode)
 {
+	if (l == &g_dst.lock) {
+		if (g_dlock)
+			g_kc.lock_error = true;
+		g_dlock = mode;
+		g_dacq++;
+		return;
+	}
 	if (g_kc.lock || l != &g_tab.lock)
 		g_kc.lock_error = true;
 	g_kc.lock = mode;
@@ -101,6 +112,12 @@ int pthread_rwlock_rdlock(pthread_rwlock_t *l)
 }
 int pthread_rwlock_unlock(pthread_rwlock_t *l)
 {
+	if (l == &g_dst.lock) {
+		if (!g_dlock)
+			g_kc.lock_error = true;
+		g_dlock = 0;
+		return 0;
+	}
 	if (!g_kc.lock || l != &g_tab.lock)
 		g_kc.lock_error = true;
 	if (g_kc.lock == 2) {
@@ -134,7 +151,7 @@ static unsigned int g_n;
 static bool g_alloc_fail;
 static unsigned int g_free_ent[KN], g_free_other, g_free_new, g_hremove_existing;
 static struct spki_record g_out[KN + 1];
-static unsigned int g_realloc_calls;
+static unsigned int g_realloc_calls, g_npool;
 
 void *lrtr_realloc(void *ptr, size_t size)
 {
@@ -153,10 +170,11 @@ void lrtr_free(void *p)
 			g_free_ent[i]++;
 			hit = true;
 		}
-	if (p == &g_new) {
-		g_free_new++;
-		hit = true;
-	}
+	for (unsigned int i = 0; i < 4; i++)
+		if (p == &g_pool[i]) {
+			g_free_new++;
+			hit = true;
+		}
 	if (!hit && p && p != g_out)
 		g_free_other++;
 }
@@ -165,7 +183,13 @@ void *lrtr_malloc(size_t size)
 	g_kc.mallocs++;
 	if (size != sizeof(struct key_entry))
 		g_kc.bad = true;
-	return (g_alloc_fail && VND_BOOL()) ? NULL : &g_new;
+	if (g_alloc_fail && VND_BOOL())
+		return NULL;
+	if (g_npool >= 4) {
+		g_kc.bad = true;
+		return NULL;
+	}
+	return &g_pool[g_npool++];
 }
 /* third-party, ASSUMED: links the node into the bucket of the hash */
 static tommy_hashlin_node *g_ins_node;
@@ -177,8 +201,12 @@ void tommy_hashlin_insert(tommy_hashlin *hashlin, tommy_hashlin_node *node, void
 	g_ins_node = node;
 	g_ins_data = data;
 	g_ins_hash = hash;
-	if (hashlin != &g_tab.hashtable || g_kc.lock != 2)
+	if (hashlin == &g_dst.hashtable) {
+		if (g_dlock != 2 || node != &((struct key_entry *)data)->hash_node || hash != tommy_inthash_u32(((struct key_entry *)data)->asn))
+			g_kc.bad = true;
+	} else if (hashlin != &g_tab.hashtable || g_kc.lock != 2) {
 		g_kc.bad = true;
+	}
 }
 /* third-party, ASSUMED: unlinks and returns the first element of the hash's bucket the comparator accepts */
 static struct key_entry *g_hremoved;
@@ -260,6 +288,9 @@ static void mk_chain(void)
 	g_alloc_fail = VND_BOOL();
 	g_free_other = g_hremove_existing = g_realloc_calls = g_free_new = 0;
 	g_hremoved = NULL;
+	g_npool = 0;
+	g_dlock = 0;
+	g_dacq = 0;
 	g_ins_node = NULL;
 	g_ins_data = NULL;
 	/* the record handed to add / remove, from the same pools */
@@ -425,6 +456,72 @@ void h_spki_remove(void)
 		CANARY("second entry of a full chain removed reachable");
 	if (r == SPKI_RECORD_NOT_FOUND && g_n == KN)
 		CANARY("not found in a full chain reachable");
+}
+
+static tommy_hashlin_node *g_dbuckets[1]; /* the destination's buckets: all empty */
+void h_spki_copy(void)
+{
+	g_tape_n = 0;
+	mk_chain();
+	const struct rtr_socket *s1 = (const struct rtr_socket *)(uintptr_t)0x1000;
+
+	/* an empty destination with a single (empty) bucket: the hash table's own geometry is third-party state */
+	g_dst.hashtable = g_junk_ht;
+	g_dst.hashtable.bucket[0] = g_dbuckets;
+	g_dst.hashtable.bucket_bit = 0;
+	g_dst.hashtable.bucket_max = 1;
+	g_dst.hashtable.bucket_mask = 0;
+	g_dst.hashtable.low_max = 1;
+	g_dst.hashtable.low_mask = 0;
+	g_dst.hashtable.split = 0;
+	g_dst.hashtable.state = 0;
+	g_dst.hashtable.count = 0;
+	g_dst.list = NULL;
+	g_dst.update_fp = NULL;
+	g_dst.cmp_fp = key_entry_cmp;
+	int r = spki_table_copy_except_socket(&g_tab, &g_dst, (struct rtr_socket *)s1);
+
+	CHECK(!g_kc.bad && !g_kc.lock_error && g_kc.lock == 0 && g_dlock == 0 && g_kc.acquisitions == 1, "C16 copy: one read-locked section on the source, released on every path; the destination is written under its write lock");
+	CHECK(g_free_other == 0 && g_kc.cb == 0 && g_kc.hremove == 0 && g_hremove_existing == 0, "C10 copy removes and reports nothing");
+	/* the source is unchanged */
+	tommy_node *n = g_real_list;
+
+	for (unsigned int i = 0; i < KN; i++) {
+		CHECK(g_free_ent[i] == 0, "C10 copy releases no source entry");
+		if (i < g_n) {
+			CHECK(n == &g_ent[i].list_node, "C10 copy leaves the source list as it was");
+			n = n ? n->next : NULL;
+		}
+	}
+	CHECK(n == NULL, "C10 copy leaves the source list as it was (end)");
+	/* the destination: the other sources' entries, in order, byte for byte */
+	tommy_node *d = g_dst.list;
+	unsigned int nd = 0;
+
+	if (r == SPKI_SUCCESS) {
+		for (unsigned int i = 0; i < KN; i++)
+			if (i < g_n && g_ent[i].socket != s1) {
+				CHECK(d != NULL && d->data == &g_pool[nd < 4 ? nd : 0], "C10/C06 the copy holds one entry per entry of another source, in order");
+				if (d) {
+					const struct key_entry *c = d->data;
+					struct spki_record rr;
+
+					key_entry_to_spki_record(&g_ent[i], &rr);
+					CHECK(rec_is_entry(&rr, c), "C10/C06 copied entries are equal to the originals in AS, SKI, key and source, byte for byte");
+					d = d->next;
+				}
+				nd++;
+			}
+		CHECK(d == NULL && g_kc.insert == nd && g_dacq == nd, "C10/C06 the copy holds nothing else (nothing of the excluded source); each entry went into the destination's hash table once");
+	} else {
+		CHECK(r == SPKI_ERROR && g_alloc_fail, "C18 a copy fails only on allocation failure");
+	}
+	if (r == SPKI_SUCCESS && nd == 2 && g_n == 3)
+		CANARY("two of three copied reachable");
+	if (r == SPKI_SUCCESS && nd == 0 && g_n == 3)
+		CANARY("nothing to copy reachable");
+	if (r == SPKI_ERROR)
+		CANARY("allocation failure reachable");
 }
 
 void h_spki_src_remove(void)
